@@ -53,7 +53,7 @@ PROPERTIES = {
         assumptions=["find_text / find_text_nocase / find_text_regex / split_text / trim_text are not covered by this check"],
     ),
     'C02': dict(
-        units=['u_store', 'u_cascade', 'u_map', 'u_dataset'],
+        units=['u_store', 'u_cascade', 'u_map', 'u_dataset', 'u_ann', 'u_ann_closure'],
         level_text="Deductive proof (Verus/Z3): the generic StoreFor::remove succeeds whenever the item exists (and its callback succeeds), leaves a tombstone, drops the item's id and only ever turns other slots into tombstones; the index half of StoreCallbacks<Annotation>::preremove (cut out as a region) removes the removed annotation from exactly the rows of exactly the reverse index that its targets and data occupy, leaving every other row untouched; the index primitives used by the cascade (remove / remove_all / remove_second) and the dataset callbacks are exact. The transitive set of dependents that is removed is defined by the un-contracted part of preremove and is NOT decided.",
         level_note="Trusted: the collection of an annotation's targets through the high-level iterator API at the start of preremove(Annotation) (outside the region), preremove for TextResource / AnnotationDataSet, remove_data/remove_key orchestration, DELETE query routing; HashMap model; vx_position; lawful Ord on handles.",
         design_ref='DESIGN.md §7.2',
